@@ -95,7 +95,21 @@ def run(ctx):
     for d, c in os_calls(ep):
         ctx.check("R1", ep, A.unparse(c.args[0]) == f"{entry}.location", f"target:{d}", f"{d} is applied to the entry's own location", node=c)
     unknown_live_enforced(ctx, ep, live, "R1")
-    ctx.floor("R1", 12)
+    # ownership is changed when the switch is on and EITHER id is recorded (-1 = "leave alone" for lchown, so a half-recorded
+    # owner must still be applied); decided as a truth table over the three atoms of the guard, not by spelling
+    from ..core import boolx
+    lc = [c for d, c in os_calls(ep) if d == "os.lchown"][0]
+    gd = [p for p in A.parents(lc) if isinstance(p, ast.If)]
+    ids = [a.id for a in lc.args[1:3] if isinstance(a, ast.Name)]
+    sws = [nm for nm in (A.names_in(gd[0].test) if gd else ()) if nm not in ids]
+    ctx.require(len(ids) == 2 and len(sws) == 1, "ensure_perms: guard of os.lchown (switch, uid, gid) not recognised")
+    keys = boolx.atoms(gd[0].test)
+    want = {sws[0], f"{ids[0]} == -1", f"{ids[1]} == -1"}
+    ok = set(keys) == want and all(boolx.evaluate(gd[0].test, env) == (env[sws[0]] and not (env[f"{ids[0]} == -1"] and env[f"{ids[1]} == -1"]))
+                                  for env in boolx.assignments(keys))
+    ctx.check("R1", ep, ok, "chown-when-either-id-recorded", "os.lchown runs when ownership is to be enforced and at least one of uid / gid is recorded",
+              f"ensure_perms guards os.lchown with `{A.unparse(gd[0].test)}`: that is not `{sws[0]} and ({ids[0]} != -1 or {ids[1]} != -1)`, so an entry that records only one of uid / gid keeps the creating process' ids (or a recorded owner is skipped)", node=gd[0])
+    ctx.floor("R1", 13)
 
     # ---- R2 merge_contents ------------------------------------------------------------
     mc = P.func(MOD, "merge_contents")
